@@ -57,7 +57,7 @@ def cases(draw):
                 sr = draw(gens.gt_search(m, t, f))
             else:
                 sr = draw(gens.search_from(m, t, f, allow_gt=False, inseg_star=False, allow_malformed=True))
-            steps.append({"op": "query", "s": sr["s"]})
+            steps.append({"op": "query", "s": sr["s"], "obj": draw(st.integers(0, 3)) == 0})
         else:
             which = draw(st.sampled_from(["entity", "ancestor", "deeper", "sibling-value", "untyped", "leaf"]))
             tt, ff = t, dict(f)
@@ -122,6 +122,12 @@ def evaluate(case) -> Outcome:
 
         if step["op"] == "query":
             s = step["s"]
+            if step.get("obj"):
+                # the same search given as a Sid OBJECT (typed by the first template accepting the string, or untyped)
+                oks, so = call(Sid, s)
+                if oks and str(so) == s:
+                    s = so
+                    out.label("search-as-sid-object")
             # the list also holds entries that no template types but that a search may match (unknown extension, junk level)
             noisy = list(L)
             for e_ in L[:4]:
